@@ -1,10 +1,181 @@
 import F3.Model.Inputs
 import F3.Spec.Inputs
+import F3.Proofs.Inputs
+import F3.Proofs.InputsComplete
 /-!
 # C15 — proposals extend the finalized head along EC; committees derive from finalized history
+
+Theorems about `F3.Inputs` (hand model of `consensus_inputs.go`, tied to the real component by
+`h_inputs`). They hold for every finite EC tree, every certificate store, every manifest and clock
+reading; no bound on sizes.
 -/
 namespace F3.Props.C15
-open F3 F3.Inputs F3.Spec.Inputs
+open F3 F3.Inputs F3.Spec.Inputs F3.Proofs.Inputs F3.Proofs.InputsComplete
+
+set_option linter.unusedSimpArgs false
+set_option linter.unusedVariables false
+
+/-- `collectChain` returns a parent chain from the base to EC's head: each tipset's EC parent is the
+tipset before it, the first one's parent is the base, and the last one is the head. -/
+theorem collect_is_parent_chain (ec : EC) (baseKey : Nat) (base head : Block) (l : List Nat)
+    (h : collectChain ec baseKey base head = .ok (some l)) :
+    isPath ec baseKey l ∧ (baseKey :: l).getLast? = some ec.head :=
+  collectChain_path ec baseKey base head l h
+
+/-- **…and it finds every such chain**: on a well-formed EC (every parent exists and has a strictly
+smaller epoch) `collectChain` returns exactly the parent path whenever the base is an ancestor of,
+or equal to, the head — so a proposal is cut short only by the look-back, freshness and length rules,
+never by the walk itself. -/
+theorem collect_complete (ec : EC) (hwf : wfEC ec) (baseKey : Nat) (base head : Block) (l : List Nat)
+    (hb : ec.get baseKey = some base) (hh : ec.get ec.head = some head)
+    (hp : isPath ec baseKey l) (hl : (baseKey :: l).getLast? = some ec.head) :
+    collectChain ec baseKey base head = .ok (some l) :=
+  collectChain_complete ec hwf baseKey base head l hb hh hp hl
+
+/-- consequently "nil" (propose the base alone) is answered only when the head does not descend from
+the base -/
+theorem collect_nil_only_if_not_descendant (ec : EC) (hwf : wfEC ec) (baseKey : Nat) (base head : Block)
+    (hb : ec.get baseKey = some base) (hh : ec.get ec.head = some head)
+    (hnil : collectChain ec baseKey base head = .ok none) :
+    ¬ ∃ l, isPath ec baseKey l ∧ (baseKey :: l).getLast? = some ec.head := by
+  rintro ⟨l, hp, hl⟩
+  rw [collectChain_complete ec hwf baseKey base head l hb hh hp hl] at hnil
+  cases hnil
+
+/-- **Shape of every proposal.** Whenever `GetProposal` answers, for every EC tree, certificate store,
+manifest and clock reading: the chain starts at the tipset finalized by the previous instance (the
+bootstrap tipset for the first instance); every tipset carries EC's epoch and EC's power-table CID
+at that tipset; every next tipset is the EC child of the previous one on the way to EC's head (the
+proposal is a prefix of the parent chain base → head), or the chain is the base alone; epochs
+strictly increase from a non-negative base epoch; and the length is at most
+`min(ChainMaxLen, ChainProposedLength)`. -/
+theorem proposal_shape (m : Manifest) (s : Store) (ec : EC) (now : Int) (inst supp : Nat) (chain : List Tip)
+    (h : getProposal m s ec now inst = .ok (supp, chain)) :
+    ∃ baseKey b sfx, expectedBase m s ec inst = some baseKey ∧ chain = b :: sfx ∧ b.key = baseKey ∧
+      (∀ t ∈ chain, tipOf ec t.key = some t) ∧
+      isPath ec baseKey (sfx.map (·.key)) ∧
+      (sfx = [] ∨ ∃ rest, isPath ec baseKey (sfx.map (·.key) ++ rest) ∧
+          (baseKey :: (sfx.map (·.key) ++ rest)).getLast? = some ec.head) ∧
+      epochsIncreasing chain = true ∧ 0 ≤ b.epoch ∧
+      (chain.length : Int) ≤ min ChainMaxLen m.chainProposedLength := by
+  unfold getProposal at h
+  split at h
+  · cases h
+  · rename_i baseKey hbk
+    split at h
+    · cases h
+    · cases h
+    · rename_i base head hbase hhead
+      split at h
+      · cases h
+      · rename_i col hcol
+        simp only at h
+        split at h
+        · cases h
+        · rename_i hlen
+          split at h
+          · rename_i b sfx hb hsfx
+            split at h
+            · cases h
+            · rename_i hval
+              split at h
+              · cases h
+              · rename_i c hc
+                simp only [Res.ok.injEq, Prod.mk.injEq] at h
+                obtain ⟨_, hchain⟩ := h
+                subst hchain
+                have hts := tipsOf_spec ec _ sfx hsfx
+                have hbkey : b.key = baseKey := by
+                  unfold tipOf at hb
+                  rw [hbase] at hb
+                  simp at hb; rw [← hb]
+                have hbe : b.epoch = base.epoch := by
+                  unfold tipOf at hb
+                  rw [hbase] at hb
+                  simp at hb; rw [← hb]
+                simp only [Bool.or_eq_true, Bool.not_eq_true', decide_eq_true_eq, not_or, Bool.not_eq_false,
+                  Int.not_lt] at hval
+                -- the suffix keys are a prefix of the collected chain
+                obtain ⟨r1, hr1⟩ := trim_prefix m ec now (col.getD [])
+                generalize htr : trim m ec now (col.getD []) = collected at hts hsfx hr1
+                generalize hn : (min (min ChainMaxLen m.chainProposedLength - 1) (collected.length : Int)).toNat = n at hts hsfx
+                have hpre : col.getD [] = collected.take n ++ (collected.drop n ++ r1) := by
+                  rw [← List.append_assoc, List.take_append_drop]; exact hr1
+                refine ⟨baseKey, b, sfx, baseKeyOf_expected m s ec inst baseKey hbk, rfl, hbkey, ?_, ?_, ?_, hval.1,
+                  by rw [hbe]; exact hval.2, ?_⟩
+                · intro t ht
+                  simp only [List.mem_cons] at ht
+                  rcases ht with ht | ht
+                  · subst ht; rw [hbkey]; exact hb
+                  · exact hts.2 t ht
+                · rw [hts.1]
+                  cases col with
+                  | none =>
+                    have h0 : collected.take n = [] := (List.append_eq_nil_iff.mp hpre.symm).1
+                    rw [h0]; trivial
+                  | some l =>
+                    have hp := (collectChain_path ec baseKey base head l hcol).1
+                    simp at hpre
+                    rw [hpre] at hp
+                    exact isPath_prefix ec _ _ _ hp
+                · cases col with
+                  | none =>
+                    have h0 : collected.take n = [] := (List.append_eq_nil_iff.mp hpre.symm).1
+                    left
+                    have : sfx.map (·.key) = [] := by rw [hts.1, h0]
+                    simpa using this
+                  | some l =>
+                    right
+                    have hp := collectChain_path ec baseKey base head l hcol
+                    simp at hpre
+                    refine ⟨collected.drop n ++ r1, ?_, ?_⟩
+                    · rw [hts.1, ← hpre]; exact hp.1
+                    · rw [hts.1, ← hpre]; exact hp.2
+                · have hlen2 : sfx.length = (collected.take n).length := by rw [← hts.1]; simp
+                  simp only [List.length_cons, hlen2, List.length_take]
+                  have : (n : Int) ≤ min ChainMaxLen m.chainProposedLength - 1 := by
+                    rw [← hn]
+                    have : 0 ≤ min (min ChainMaxLen m.chainProposedLength - 1) (collected.length : Int) := by omega
+                    rw [Int.toNat_of_nonneg this]; omega
+                  omega
+          · cases h
+
+
+/-- the executable shape predicate used by the driver accepts exactly… at least every proposal of
+the model: `proposalShape` is implied by `proposal_shape` on the points it checks (base, EC data,
+length). -/
+theorem proposal_passes_executable_length_check (m : Manifest) (s : Store) (ec : EC) (now : Int) (inst supp : Nat)
+    (chain : List Tip) (h : getProposal m s ec now inst = .ok (supp, chain)) :
+    ¬ ((chain.length : Int) > min ChainMaxLen m.chainProposedLength) ∧ chain ≠ [] := by
+  obtain ⟨_, b, sfx, _, hc, _, _, _, _, _, _, hlen⟩ := proposal_shape m s ec now inst supp chain h
+  exact ⟨by omega, by rw [hc]; simp⟩
+
+/-- when EC's head is behind the base the proposal is the base alone -/
+theorem proposal_base_only_when_head_behind (m : Manifest) (s : Store) (ec : EC) (now : Int) (inst supp : Nat)
+    (chain : List Tip) (h : getProposal m s ec now inst = .ok (supp, chain))
+    (baseKey : Nat) (base head : Block) (hk : baseKeyOf m s ec inst = .ok baseKey)
+    (hb : ec.get baseKey = some base) (hh : ec.get ec.head = some head) (hbehind : head.epoch < base.epoch) :
+    chain.length = 1 := by
+  unfold getProposal at h
+  rw [hk] at h
+  simp only [hb, hh] at h
+  have hc : collectChain ec baseKey base head = .ok none := by simp [collectChain, hbehind]
+  rw [hc] at h
+  have htrim : trim m ec now [] = [] := by simp [trim]
+  simp only [Option.getD_none, htrim, List.length_nil, List.take_nil] at h
+  split at h
+  · cases h
+  · simp only [tipsOf] at h
+    split at h
+    · rename_i b sfx hbt hs
+      simp only [Option.some.injEq] at hs
+      split at h
+      · cases h
+      · split at h
+        · cases h
+        · simp only [Res.ok.injEq, Prod.mk.injEq] at h
+          rw [← h.2, ← hs]; rfl
+    · cases h
 
 /-- the supplemental data of a proposal commits to the table of the next instance's committee, as
 derived by the same rule from the same store and EC -/
@@ -31,5 +202,141 @@ theorem supp_commits_next_committee (m : Manifest) (s : Store) (ec : EC) (now : 
                 simp only [Res.ok.injEq, Prod.mk.injEq] at h
                 exact ⟨c, hc, h.1⟩
           · cases h
+
+/-- **Committees depend on finalized tipsets only.** Two EC views that agree on the tipsets named by
+the stored certificates and on the bootstrap tipset — and may differ arbitrarily elsewhere: other
+heads, forks, unfinalized blocks — give the same committee for every instance. -/
+theorem committee_ec_view_independent (m : Manifest) (s : Store) (ec1 ec2 : EC) (inst : Nat)
+    (hboot : ec1.byEpoch (m.bootstrapEpoch - m.finality) = ec2.byEpoch (m.bootstrapEpoch - m.finality))
+    (hget : ∀ c ∈ s.certs, ec1.get c.head = ec2.get c.head ∧ ec1.get c.base = ec2.get c.base) :
+    getCommittee m s ec1 inst = getCommittee m s ec2 inst := by
+  unfold getCommittee
+  split
+  · split
+    · rfl
+    · split
+      · rw [hboot]
+      · split
+        · rfl
+        · rename_i c hc
+          rw [(hget c (store_get_mem s _ c hc)).2]
+  · split
+    · rfl
+    · rename_i c hc
+      rw [(hget c (store_get_mem s _ c hc)).1]
+
+
+/-- **Committees are stable under new certificates**: once the store determines the table of an
+instance, appending any further certificates does not change that instance's committee. -/
+theorem committee_stable_under_new_certificates (m : Manifest) (s : Store) (extra : List Cert) (ec : EC) (inst : Nat)
+    (hfirst : s.first = m.initialInstance) (hL : 0 < m.committeeLookback)
+    (havail : inst ≤ s.first + s.certs.length) (hne : s.certs ≠ []) :
+    getCommittee m { s with certs := s.certs ++ extra } ec inst = getCommittee m s ec inst := by
+  have hlen : 0 < s.certs.length := List.length_pos_iff.mpr hne
+  have he1 : s.certs.isEmpty = false := by simpa using hne
+  have he2 : (s.certs ++ extra).isEmpty = false := by simp [hne]
+  unfold getCommittee
+  simp only [he1, he2]
+  rw [store_powerTable_append s extra m.initialInstance (by omega),
+      store_get_append s extra m.initialInstance (by omega),
+      store_powerTable_append s extra inst havail]
+  by_cases hw : inst < m.initialInstance + m.committeeLookback
+  · simp only [hw, ite_true]
+  · simp only [hw, ite_false]
+    rw [store_get_append s extra (inst - m.committeeLookback) (by omega)]
+
+/-- **Committees are a function of the finalized history.** Two nodes whose stores share a
+non-empty certificate prefix that already determines the instance's table, whose EC views agree on
+the tipsets named by that prefix and on the bootstrap tipset, derive the same committee — whatever
+else they have stored or seen. -/
+theorem committee_function_of_history (m : Manifest) (first initialTable : Nat) (pre e1 e2 : List Cert)
+    (ec1 ec2 : EC) (inst : Nat)
+    (hfirst : first = m.initialInstance) (hL : 0 < m.committeeLookback)
+    (havail : inst ≤ first + pre.length) (hne : pre ≠ [])
+    (hboot : ec1.byEpoch (m.bootstrapEpoch - m.finality) = ec2.byEpoch (m.bootstrapEpoch - m.finality))
+    (hget : ∀ c ∈ pre, ec1.get c.head = ec2.get c.head ∧ ec1.get c.base = ec2.get c.base) :
+    getCommittee m { first := first, initialTable := initialTable, certs := pre ++ e1 } ec1 inst =
+    getCommittee m { first := first, initialTable := initialTable, certs := pre ++ e2 } ec2 inst := by
+  let s : Store := { first := first, initialTable := initialTable, certs := pre }
+  have h1 := committee_stable_under_new_certificates m s e1 ec1 inst hfirst hL havail hne
+  have h2 := committee_stable_under_new_certificates m s e2 ec2 inst hfirst hL havail hne
+  have h3 := committee_ec_view_independent m s ec1 ec2 inst hboot hget
+  show getCommittee m { s with certs := s.certs ++ e1 } ec1 inst = getCommittee m { s with certs := s.certs ++ e2 } ec2 inst
+  rw [h1, h2, h3]
+
+/-- inside the look-back window the committee's table is the initial table -/
+theorem committee_initial_table_in_window (m : Manifest) (s : Store) (ec : EC) (inst : Nat) (c : Committee)
+    (hfirst : s.first = m.initialInstance) (hw : inst < m.initialInstance + m.committeeLookback)
+    (h : getCommittee m s ec inst = .ok c) : c.table = s.initialTable := by
+  unfold getCommittee at h
+  simp only [hw, ite_true] at h
+  have hp : s.powerTable m.initialInstance = some s.initialTable := by
+    unfold Store.powerTable; simp [hfirst]
+  simp only [hp] at h
+  split at h
+  · split at h
+    · cases h
+    · simp only [Res.ok.injEq] at h; rw [← h]
+  · split at h
+    · cases h
+    · split at h
+      · cases h
+      · simp only [Res.ok.injEq] at h; rw [← h]
+
+/-- after the window, table and beacon come from the head finalized `lookback` instances earlier:
+the beacon is that tipset's, the table is the one committed for the instance by the previous
+certificate if the store already has it, else EC's table at that tipset -/
+theorem committee_after_window (m : Manifest) (s : Store) (ec : EC) (inst : Nat) (c : Committee)
+    (hw : ¬ inst < m.initialInstance + m.committeeLookback)
+    (h : getCommittee m s ec inst = .ok c) :
+    ∃ cert blk, s.get (inst - m.committeeLookback) = some cert ∧ ec.get cert.head = some blk ∧
+      c.beacon = cert.head ∧ (s.powerTable inst = some c.table ∨ (s.powerTable inst = none ∧ c.table = blk.pt)) := by
+  unfold getCommittee at h
+  simp only [hw, ite_false] at h
+  split at h
+  · cases h
+  · rename_i cert hcert
+    cases hg : ec.get cert.head with
+    | none =>
+      simp only [hg] at h
+      cases hpt : s.powerTable inst with
+      | none => simp [hpt] at h
+      | some t => simp [hpt] at h
+    | some blk =>
+      simp only [hg] at h
+      cases hpt : s.powerTable inst with
+      | none =>
+        simp [hpt] at h
+        exact ⟨cert, blk, hcert, hg, by rw [← h], Or.inr ⟨rfl, by rw [← h]⟩⟩
+      | some t =>
+        simp [hpt] at h
+        exact ⟨cert, blk, hcert, hg, by rw [← h], Or.inl (by rw [← h])⟩
+
+/-! ## Non-vacuity -/
+
+/-- a small tree: 0 ← 1 ← 2 ← 3 ← 4 (main chain, epoch 3 is a null round) and a fork 2 ← 5 -/
+def exampleEC : EC :=
+  { blocks := [⟨0, none, 0, 0⟩, ⟨1, some 0, 0, 30⟩, ⟨2, some 1, 1, 60⟩, ⟨4, some 2, 1, 120⟩, ⟨5, some 3, 0, 150⟩, ⟨3, some 2, 1, 90⟩],
+    head := 4 }
+
+def exampleManifest : Manifest :=
+  { initialInstance := 0, bootstrapEpoch := 1, finality := 0, headLookback := 0, period := 30,
+    chainProposedLength := 100, committeeLookback := 2 }
+
+/-- first instance, fresh store: the proposal runs from the bootstrap tipset 1 along 2, 3 to the head 4 -/
+example : getProposal exampleManifest { first := 0, initialTable := 0, certs := [] } exampleEC 1000 0 =
+    .ok (0, [⟨1, 1, 0⟩, ⟨2, 2, 1⟩, ⟨3, 4, 1⟩, ⟨4, 5, 0⟩]) := by decide
+
+/-- the head tipset is younger than one period: it is trimmed -/
+example : (match getProposal exampleManifest { first := 0, initialTable := 0, certs := [] } exampleEC 160 0 with
+    | .ok (_, c) => c.length | .err _ => 0) = 3 := by decide
+
+/-- head on the fork 2 ← 5 while tipset 3 is final: the proposal collapses to the base -/
+example : getProposal exampleManifest { first := 0, initialTable := 0, certs := [⟨1, 3, 0⟩] }
+    { exampleEC with head := 5 } 1000 1 = .ok (1, [⟨3, 4, 1⟩]) := by decide
+
+/-- committee of instance 2 (look-back 2): from the head finalized in instance 0 -/
+example : getCommittee exampleManifest { first := 0, initialTable := 0, certs := [⟨1, 3, 0⟩, ⟨3, 4, 0⟩] } exampleEC 2 =
+    .ok { table := 0, beacon := 3 } := by decide
 
 end F3.Props.C15
